@@ -33,6 +33,9 @@ CLAIMED = {
  "C10": ("fault_enumeration", "crash-prefix enumeration over every mutating transition of an explicit-state BFS; independent fsck of every crash image",
          "For every prefix of the write log of every explored transition (create, extend, flush, close, truncate, delete, mkdir, directory growth) on volumes whose free clusters hold stale directory-like contents, the crash image must mount and list, and refat must find no reference to a free/bad/out-of-range cluster, no shared cluster, no cycle, no exposed stale entries and no sub-directory without its own cluster.",
          MC_NOTE, "DESIGN.md section 5 C10"),
+ "C11": ("fault_enumeration", "explicit-state BFS over histories; every transition re-executed with a device failure at every device-call index (and every pair across the last two operations in the thorough tier)",
+         "For every transition of the history exploration the real call is re-run once per block-device call with exactly that call failing (failed reads scribble the buffer): it must return Err, not panic or hang; afterwards all handles must work and close, a retried read-only call must give the fault-free answer, re-issuing the call must not create duplicate names, and bystander files must be intact on the medium.",
+         MC_NOTE + " The property's random multi-fault sequences are replaced by exhaustive pairs.", "DESIGN.md section 5 C11"),
  "C15": ("exploration", "exhaustive input enumeration: full product of valid layout parameters and single+pair boundary mutations, run through the real mount path",
          "Every layout in the stated product is formatted by an independent formatter and must be mounted, listed and read back exactly by the crate; every boundary value of every MBR/BPB/FSInfo field (singly and in pairs) and every constant-byte sector must make open_raw_volume return without panic under overflow checks.",
          "Trusted base: mkfs (independent formatter) and refat (its images are cross-checked by the self-test). Between grid points nothing is claimed.", "DESIGN.md section 5 C15"),
